@@ -90,6 +90,20 @@ HadOf(n, d, lay, blk(_, _, _), scaled) ==
                  IN IF lay[i + 1][1] # lay[j + 1][1] THEN 0
                     ELSE blk(lay[i + 1][2], i - lay[i + 1][1], j - lay[j + 1][1]) * (IF scaled THEN ColScale(j, d) ELSE 1)])
 
+\* ---- ill (QR only): A = H diag(2^k) H on one Sylvester block H (H H = s I, so H / sqrt(s) is orthogonal and the singular values of
+\* the block are exactly s 2^k): the columns are nearly parallel, cond_2 = 2^E exactly and cond_inf <= s 2^E.  This is the input on which
+\* Gram-Schmidt variants differ: modified Gram-Schmidt loses orthogonality like eps cond, the classical one like eps cond^2.
+RECURSIVE HS(_, _, _)
+HS(s, a, b) == IF s = 1 THEN 1 ELSE LET h == s \div 2 IN H2(a \div h, b \div h) * HS(h, a % h, b % h)
+Pow2Le(n) == CHOOSE s \in {1, 2, 4, 8, 16, 32} : s <= n /\ (2 * s > n \/ s = 32)
+IllEMax(s) == CASE s = 2 -> 24 [] s = 4 -> 24 [] s = 8 -> 22 [] s = 16 -> 21 [] s = 32 -> 20
+IllE(s, d) == CASE d = 0 -> 10 [] d = 1 -> IllEMax(s) - 6 [] OTHER -> IllEMax(s)
+IllH(n, s) == TLCEval([q \in 1..(n * n) |-> LET i == RowOf(q, n)  j == ColOf(q, n)
+                 IN IF i < s /\ j < s THEN HS(s, i, j) ELSE IF i = j THEN 1 ELSE 0])
+IllD(n, s, d) == LET E == IllE(s, d)  rot == H3(s, 66, d)
+                 IN TLCEval([i \in 0..(n - 1) |-> IF i < s THEN 2 ^ ((((i + rot) % s) * E) \div (s - 1)) ELSE 2 ^ (E \div 2)])
+ScaleCols(M, n, dg) == TLCEval([q \in 1..(n * n) |-> M[q] * dg[ColOf(q, n)]])
+
 \* ---- tril / triu
 LogCeil(x) == CHOOSE k \in 0..12 : 2 ^ k >= x /\ (k = 0 \/ 2 ^ (k - 1) < x)
 TrilOf(n, d) == LET s == LogCeil(4 * n)
@@ -112,6 +126,7 @@ KeysOf ==
       [] Kind = "Solve" -> {k \in GeneralKeys : k[2] # "uni" \/ k[1] <= 33}
                            \cup {<<n, f, d, 0>> : n \in Sizes, f \in {"tril", "triu"}, d \in {0}}
       [] Kind = "QR" -> {k \in GeneralKeys : k[2] # "uni" \/ k[1] <= 33} \cup {<<n, "hq", d, 0>> : n \in Sizes, d \in {0, 1}}
+                        \cup {<<n, "ill", d, 0>> : n \in Sizes \ {1}, d \in {0, 1, 2}}
 Keys == {k \in KeysOf : k[1] >= MinSize(k[4])}
 
 FormSizes == {1, 2, 3, 4, 5, 9, 17}
@@ -148,6 +163,11 @@ CallsOf(n, fam, d, v, adm) ==
                 \cup (IF nop /\ FormOK(n) /\ d = 0 THEN {Call(s, f, "f64", k, "none", "nopiv") : s \in {"SimpleInv", "BlockLU"}, f \in {"expr_Ab", "expr_A", "expr_b"}, k \in {0, KCols(n, d)}} ELSE {})
                 \cup (IF adm /\ FormOK(n) /\ v = 3 THEN {Call(s, "expr_Ab", "f64", k, "none", "piv") : s \in {"SimpleInvPiv", "SimpleLUPiv"}, k \in {0, KCols(n, d)}} ELSE {})
       [] Kind = "QR" ->
+           IF fam = "ill"            \* d >= 1: cond up to 7e7, inside the property's domain for double only (entries need up to 30 bits)
+           THEN LET Ts == IF d = 0 THEN Types ELSE {"f64"} IN
+                {Call("MGSR", "eager", T, 0, "none", "any") : T \in Ts} \cup {Call("MGSRPiv", "eager", T, 0, "V", "any") : T \in Ts}
+                \cup (IF FormOK(n) /\ d = 2 THEN {Call("MGSR", "expr", "f64", 0, "none", "any")} ELSE {})
+           ELSE
            {Call("MGSR", "eager", T, 0, "none", "any") : T \in Types}
            \cup {Call("MGSRPiv", "eager", T, 0, pk, "any") : pk \in {"V", "M"}, T \in Types}
            \cup (IF FormOK(n) /\ d = 0 THEN {Call("MGSR", "expr", "f64", 0, "none", "any")} \cup {Call("MGSRPiv", "expr", "f64", 0, pk, "any") : pk \in {"V", "M"}} ELSE {})
@@ -177,6 +197,13 @@ Build(k) ==
                adm == StaticPivot(A, n) = Iota(n)
            IN [n |-> n, fam |-> fam, d |-> d, v |-> 0, nb |-> 1, sA |-> 0, A |-> A, base |-> A, sigma |-> Iota(n), cert |-> cert, adm |-> adm,
                calls |-> CallsOf(n, fam, d, 0, adm)]
+      [] fam = "ill" ->
+           LET sb == Pow2Le(n)
+               Hm == IllH(n, sb)  dg == IllD(n, sb, d)
+               A == TLCEval(Prod(ScaleCols(Hm, n, dg), Hm, n, n, n))
+               cert == [kind |-> "hdh", H |-> Hm, dg |-> dg]
+           IN [n |-> n, fam |-> fam, d |-> d, v |-> 0, nb |-> 1, sA |-> 0, A |-> A, base |-> A, sigma |-> Iota(n), cert |-> cert, adm |-> FALSE,
+               calls |-> CallsOf(n, fam, d, 0, FALSE)]
       [] fam = "tril" ->
            LET t == TrilOf(n, d)
            IN [n |-> n, fam |-> fam, d |-> d, v |-> 0, nb |-> 1, sA |-> t.sA, A |-> t.A, base |-> t.A, sigma |-> Iota(n), cert |-> [kind |-> "tri"], adm |-> FALSE,
@@ -204,7 +231,8 @@ InNeed(need) ==
       [] need = "piv" -> Admissible(c.A, c.n, c.cert)
       [] need = "lower" -> IsUnitLowerInt(c.A, c.n, 2 ^ c.sA)
       [] need = "upper" -> IsUpperInt(c.A, c.n) /\ NonzeroDiag(c.A, c.n)
-      [] need = "any" -> NoPivotDomain(c.base, c.n, c.cert)          \* QR: any non-singular matrix (here: a row permutation of a certified one)
+      [] need = "any" -> IF c.cert.kind = "hdh" THEN HDHCertificate(c.A, c.n, c.cert.H, c.cert.dg)
+                         ELSE NoPivotDomain(c.base, c.n, c.cert)     \* QR: any non-singular matrix (here: a row permutation of a certified one)
 AdmissibleCases == \A need \in {x.need : x \in c.calls} : InNeed(need)
 \* the disjoint-cycle construction of the dd family always lands in the pivoted domain, and exactly on its base matrix
 ConstructionRestores == c.fam = "dd" => /\ c.adm
